@@ -666,10 +666,10 @@ Proof.
         assert (Hcase : forall z, inS (length h2) lg g h3 z ->
                   ((In z lg \/ In z g) /\ uid_of h3 z = uid_of h2' z) \/
                   (length h2 <= z /\ uid_of h3 z = 2 * z)).
-        { intros z [Hz|[Hz|Hz]]; [left|left|right]; (split; auto).
-          - apply Lu. apply Hlow. auto.
-          - apply Lu. apply Hlow. auto.
-          - lia. }
+        { intros z [Hz|[Hz|Hz]].
+          - left. split; [auto|]. apply Lu. apply Hlow. auto.
+          - left. split; [auto|]. apply Lu. apply Hlow. auto.
+          - right. split; [lia|apply Ln; auto]. }
         destruct (Hcase x Hx) as [(Hx1 & Hx2)|(Hx1 & Hx2)]; destruct (Hcase y Hy) as [(Hy1 & Hy2)|(Hy1 & Hy2)];
           rewrite Hx2, Hy2 in E.
         * apply (A3 x y); auto.
@@ -767,8 +767,8 @@ Proof.
   induction cs as [|c cs IH]; intros st st' rs Hinv Hu H; simpl in H.
   - inversion H; subst; auto.
   - destruct (step_ok st c Hinv) as (st1 & r & E & Hinv1 & _). rewrite E in H.
-    destruct (run st1 cs) as [(st2 & rs2)|] eqn:E2; [|discriminate]. inversion H; subst.
-    eapply IH; eauto. eapply step_uinv; eauto.
+    destruct (run st1 cs) as [(st2 & rs2)|] eqn:E2; [|discriminate]. inversion H; subst st2 rs.
+    apply (IH st1 st' rs2 Hinv1); auto. apply (step_uinv st c st1 r); auto.
 Qed.
 
 Theorem builder_uids_distinct : forall k cs st' rs, run (init k) cs = Ok (st', rs) ->
